@@ -277,7 +277,8 @@ func (s *AbsfsNFS) SetAttr(node *NFSNode, attrs *NFSAttrs) error {
 	node.mu.RUnlock()
 
 	if attrs.Mode&os.ModePerm != currentMode&os.ModePerm {
-		if err := s.fs.Chmod(node.path, attrs.Mode&os.ModePerm); err != nil {
+		// Pass the type bits along: some backends store the whole mode word
+		if err := s.fs.Chmod(node.path, attrs.Mode&os.ModePerm|currentMode&os.ModeType); err != nil {
 			return fmt.Errorf("setattr: chmod failed: %w", err)
 		}
 	}
